@@ -24,6 +24,16 @@ CLAIMS = {
    note=NOTE + "C14: the SVI object is abstracted to (state identity, loss) per update; Adam/ELBO/jit not modelled.",
    technique="Lean 4 theorems by induction over the loop model + trace correspondence with the real routine (scripted SVI)",
    design="7/C14"),
+ "C17": dict(
+   text=("Proof, full: Python slice normalisation and the four-slice gathering of estimate_sky are modelled in Lean; for every shape "
+         "H×W, every border width n≥1 with 2n≤H,W, every mask and every statistic it is proved that the gathered positions are "
+         "exactly the pixels within n of an edge, each once (Nodup), that the count is H·W−(H−2n)(W−2n) minus masked border pixels, "
+         "and that the (median, scatter, count) triple is invariant under any change of interior or masked pixels. Tie: the real "
+         "estimate_sky on index-encoded images with the array reaching the statistics captured (and cross-checked black-box by ±BIG "
+         "perturbation of every pixel) compared with the model's used set; all call styles incl. SourceProperties."),
+   note=NOTE + "C17: np.ma.median / astropy biweight_scale abstracted as arbitrary functions of the gathered values; photutils outside the model.",
+   technique="Lean 4 theorems over list/slice model (all shapes, masks, statistics) + gathered-set correspondence with the real estimate_sky",
+   design="7/C17"),
 }
 
 checks, na = [], []
